@@ -321,6 +321,8 @@ def e2_op_strategies(nparts, ngroups, profile):
             st.none(), e2_server_spec(nparts))).map(list),
         'resize': st.tuples(st.just('resize'), idx, vec(2, 16),
                             st.integers(0, 7)).map(list),
+        'shave': st.tuples(st.just('shave'), idx, st.integers(0, 2),
+                           st.sampled_from([1, 1, 2, 3])).map(list),
         'repart': st.tuples(st.just('repart'), idx,
                             st.integers(0, 2)).map(list),
         'reparent': st.tuples(st.just('reparent'), idx,
@@ -389,7 +391,7 @@ E2_WEIGHTS = {
     'app': 10, 'rm': 2, 'rmlast': 1, 'finish': 1, 'prio': 1, 'srv': 1, 'rmsrv': 1,
     'down': 2, 'up': 2, 'downseq': 0, 'downrestart': 0, 'freezeflip': 0,
     'stalemark': 0, 'rmsrvrace': 0,
-    'reboot': 1, 'resize': 1, 'repart': 1, 'reparent': 1,
+    'reboot': 1, 'resize': 1, 'shave': 1, 'repart': 1, 'reparent': 1,
     'state': 1, 'allocs': 1, 'idg': 1, 'rmidg': 1, 'bl': 1, 'blackout': 1,
     'cellev': 1, 'running': 1, 'adv': 2, 'adv_ret': 1, 'tickreboots': 1,
     'checkreboot': 1, 'integrity': 1, 'enq': 1, 'proc': 1, 'ev': 3,
@@ -415,7 +417,7 @@ def master_case(draw, profile=None):
     case = {
         'engine': 'e2',
         't0': draw(st.sampled_from([0, 3600 * 5, DAY * 3 + 7200])),
-        'unit': draw(st.sampled_from([1, 1, 1024])),
+        'unit': draw(st.sampled_from(profile.get('units', [1, 1, 1024]))),
         'order': draw(st.integers(0, 3)),
         'nparts': nparts,
         'topo': pods,
